@@ -32,6 +32,9 @@ def digest (recs : List Str) : String :=
   s!"digest:{recs.length}:{total}:{sum}"
 
 def run (op : String) (args impl : List String) : Outcome :=
+  -- `feedk`: the same stream through a pusher that rejects (but keeps) the first records: what is pushed is the same
+  let (args, keep) := match op, args with | "feedk", [dn, stream, script, _] => ([dn, stream, script], true) | _, a => (a, false)
+  let op := if op == "feedk" then "feed" else op
   match op, args with
   | "feed", [dn, stream, script] =>
     let delim := if dn == "1" then 0 else 10
@@ -66,7 +69,7 @@ def run (op : String) (args impl : List String) : Outcome :=
       | _ => specFail "[C06] reader crashed or unparsable answer"
     { model := s!"{shown} 1", spec,
       tags := ["feed"] ++ (if big then ["large"] else []) ++ (if !osLike then ["nonOS"] else []) ++
-        (if out.length ≥ 2 ∧ reads.length ≥ 3 then ["nt"] else []) }
+        (if out.length ≥ 2 ∧ reads.length ≥ 3 then ["nt"] else []) ++ (if keep then ["rejecting-pusher"] else []) }
   | _, _ => { model := "bad-op" }
 
 end Driver.Reader
